@@ -417,7 +417,9 @@ impl Interp {
                 self.visual_records += res.iter().filter(|t| matches!(t.voting_type, VotingType::Visual)).count() as u64;
                 json!(res.iter().map(|t| track(t, t.id)).collect::<Vec<_>>())
             }
-            "predict_batch" => {
+            // ("predict_batch_again": the Python side re-submits the SAME request object; its contents are unchanged, so this
+            // side submits an identical fresh request)
+            "predict_batch" | "predict_batch_again" => {
                 let key = s(&a[0]).to_string();
                 let batch = a[1].as_array().unwrap();
                 let mut per_scene: Vec<(u64, Vec<SortTrack>)> = vec![];
@@ -701,6 +703,22 @@ impl<'a> Gen<'a> {
             push!(self, json!(["clip", null, u2, u3]));
             push!(self, json!(["intersection_area", null, u2, u3]));
             push!(self, json!(["intersection_area", null, u3, u2]));
+        }
+        // exactly touching boxes (shared edge, shared corner, a vertex on an edge): the clipped ring contains repeated
+        // vertices, which get_points() must hand over as they are
+        if self.rng.chance(0.3) {
+            let (t1, t2) = (self.name("u"), self.name("u"));
+            let (l, t, w, h) = (self.rng.range(0, 20) as f64, self.rng.range(0, 20) as f64, self.rng.range(1, 6) as f64 * 2.0, self.rng.range(1, 6) as f64 * 2.0);
+            let (dx, dy) = match self.rng.usize(3) {
+                0 => (w, 0.0),
+                1 => (w, h),
+                _ => (w, h / 2.0),
+            };
+            push!(self, json!(["u_ltwh", t1, l, t, w, h]));
+            push!(self, json!(["u_ltwh", t2, l + dx, t + dy, w, h]));
+            push!(self, json!(["clip", null, t1, t2]));
+            push!(self, json!(["clip", null, t2, t1]));
+            push!(self, json!(["intersection_area", null, t1, t2]));
         }
         // nms over a handful of boxes
         let all_none = self.rng.chance(0.2);
@@ -1028,6 +1046,10 @@ impl<'a> Gen<'a> {
                         }
                         if !b.is_empty() {
                             push!(self, json!(["predict_batch", null, t, b]));
+                            // a request object is a value: submitting it again tracks the same boxes again
+                            if !visual && self.rng.chance(0.15) {
+                                push!(self, json!(["predict_batch_again", null, t, b]));
+                            }
                         }
                     } else {
                         let sc = self.rng.usize(nscenes);
